@@ -30,6 +30,7 @@ PROPS["C16"] = dict(
         "stated condition (store/to_zarr only under `compute`, indexing only for cubed-array keys). "
         "An effect closure covers every path through every entry point at once; tests call a few dozen "
         "functions under a raise-if-computes executor."
+            " A second rule (LAZY-IMPLICIT-1) covers implicit conversions: no builder truth-tests or converts a possibly-array parameter (`if a > b:` calls Array.__bool__, which computes)."
     ),
     note=(
         "Call graph over-approximated by method name for unknown receivers; subscript expressions on "
@@ -49,6 +50,7 @@ PROPS["C08"] = dict(
         "launched only for a twin-less task and registered both ways, the loop exits only when `pending` is "
         "empty, and the thread retrier re-raises after retries+1 attempts. These hold for every schedule of "
         "completions, including the same-round interleavings that tests with real timers never hit."
+            " Also: the original<->backup map is only ever changed symmetrically (MAP-TWIN-SYM-1), the batch refill sits between the wait and the next loop test, and the user's `retries` option reaches the retrier unmodified."
     ),
     note="Does not decide timing thresholds of should_launch_backup, hangs inside asyncio, or IO fault behaviour of zarr/fsspec.",
     design="DESIGN.md §4 C08",
@@ -123,6 +125,7 @@ PROPS["C20"] = dict(
         "finding F9); any further generator or merge point that breaks uniqueness is reported separately. "
         "Also decides that counters are monotone single-writer and that intermediate data lives under a "
         "per-process uuid directory."
+            " CONTEXT_ID may not be inherited from the environment, intermediate data always lives under it, and spec compatibility is by value (a deserialised equal spec combines with local arrays)."
     ),
     note="Does not decide pickling fidelity of closures or lru_cache behaviour after unpickling (needs execution).",
     design="DESIGN.md §4 C20",
@@ -136,6 +139,7 @@ PROPS["C12"] = dict(
         "array the primitive created from the (shape, dtype, chunks) triple they computed, with shape derived "
         "from those chunks; multiple outputs are paired positionally; and no code swaps the backing array "
         "afterwards (the one site that does, _store_array, is known finding F5)."
+            " Identity-copy operations (BlockView, store) declare chunks derived from the source's actual block sizes (.chunks), never the nominal chunk size."
     ),
     note=(
         "Does NOT decide the second half — that every block a function returns has the shape of its region, "
@@ -169,6 +173,7 @@ PROPS["C19"] = dict(
         "work_dir / store / compressor / executor settings are only forwarded to storage construction and "
         "never branch an operation builder. Two call sites violated the first rule and were repaired "
         "(F2 searchsorted, F10 asarray)."
+            " Intermediate data goes to the explicit store or to join_path(<work dir>, CONTEXT_ID) — never to a directory shared between sessions — and the spec check is by value (so an equal spec built elsewhere combines)."
     ),
     note="Value equality under different configurations is not decided (needs execution); allowed_mem/reserved_mem may legitimately change acceptance.",
     design="DESIGN.md §4 C19",
@@ -200,6 +205,7 @@ PROPS["C03"] = dict(
         "every predecessor fully and frees at most projected - result; variable-length block groups are handed "
         "over as iterators and consumed one block at a time through fusion; declared extra memory has unit "
         "bytes (thorough tier)."
+            " Also: what a streaming reduction carries between blocks is reduced again in the same iteration (bounded accumulator), and array_memory(<dtype>, <own output chunks>) uses the operation's output dtype (MEM-DTYPE-1)."
     ),
     note=(
         "Does NOT decide that a task's real allocations stay under the bound (NumPy temporaries, codec "
@@ -219,6 +225,7 @@ PROPS["C05"] = dict(
         "outputs with different block counts are refused); fused operations keep the successor's grid; and a "
         "caller-supplied storage array becomes a target only behind a shards/chunks compatibility guard — the "
         "missing chunks guard in _store_array is reproduced known finding F6."
+            " Rechunk copies: the irregular storage grid is split_chunks(shape, copy chunks, target chunks) and the regular planner re-aligns copy chunks per stage against the chunks they are written to (RECHUNK-GRID-1); the shard guard rechunks to the compared attribute."
     ),
     note="Does not decide that split_chunks/_fix_copy_chunks produce aligned grids for every rechunk geometry (arithmetic, see C14) nor zarr's own write atomicity.",
     design="DESIGN.md §4 C05",
@@ -232,6 +239,7 @@ PROPS["C06"] = dict(
         "did not create; it writes only its own region with plain stores; random blocks are keyed by "
         "root seed + block offset, both task parameters; arrays are created open-or-create and nothing "
         "reachable from a task deletes data. Then any order, repetition or placement yields the same chunks."
+            " The process executor ships each task with its own call's serialised function/input/kwargs, with no state shared between calls (PICKLE-PAIR-1)."
     ),
     note="User-supplied callables are outside the closure; bit-identical NumPy kernels across processes, cloudpickle fidelity and zarr write atomicity are assumed.",
     design="DESIGN.md §4 C06",
@@ -245,6 +253,7 @@ PROPS["C11"] = dict(
         "type, region-without-target, alignment and shape rejections are ValueErrors that precede operation "
         "construction; execution happens only under `compute` over all built arrays; targets whose chunking "
         "differs from the source's need a compatibility guard (known finding F6)."
+            " Also: the writing operation is marked non-fusable on the operation object itself (STORE-NOFUSE-1) and region block offsets divide each axis' start by that axis' chunk size."
     ),
     note="Does not decide the copied values nor sentinel preservation outside the region (needs execution).",
     design="DESIGN.md §4 C11",
@@ -260,6 +269,7 @@ PROPS["C01"] = dict(
         "key function names in a ChunkKey is an operand of the operation that registers it; (3) block ids "
         "travel through the offsets array appended last, read and stripped last, and decoded with the same "
         "grid. The one violation of (1), stack(), was reproduced (wrong values) and repaired (F1)."
+            " Added after independent seeding: sibling agreement of the streaming reduction's concatenation order (ACCUM-ORDER-1), role consistency of twin before/after branches (TWIN-ROLE-1), stale pre-unification aliases, and (thorough tier) dimension analysis of block/element index arithmetic (UNITS-1)."
     ),
     note=(
         "Does NOT decide the arithmetic of block mappings (off-by-one, rounding, tree-reduction rounds, "
@@ -278,6 +288,7 @@ PROPS["C15"] = dict(
         "outer function; predecessor key/function dictionaries are filled together from writes_map keys; "
         "input names, storage objects and read proxies are zipped strictly in operand order; key functions "
         "name only operands of their operation."
+            " Each key of a list/stream is mapped through the predecessor function looked up under that key's own name (no per-collection caching), and index-notation coordinate maps are bound by argument position, not array name."
     ),
     note="Does NOT decide the index algebra itself (_get_coord_mapping, lol_product, flattening): combinatorial arithmetic, not a shape-of-code fact.",
     design="DESIGN.md §4 C15",
@@ -291,6 +302,7 @@ PROPS["C17"] = dict(
         "IndexError there — and that the two structural causes of mid-run failures visible in the code "
         "(unaligned operands at a shared-coordinate sink, key functions naming a non-operand) are absent. "
         "scan()'s geometry assert is reproduced known finding F7."
+            " Also: a division by the length of an operand-derived sequence is protected against the empty case (DIVZERO-1), and chunk metadata is not read from an alias taken before unify_chunks."
     ),
     note="Does NOT decide completeness of each function's argument validation against NumPy's domain (no code-shape oracle for what should have been validated).",
     design="DESIGN.md §4 C17",
